@@ -32,3 +32,16 @@ Definition files0_names (data : str) : list str * bool :=
   let fs := split_on 0 [] data in
   let fs := match rev fs with [] :: r => rev r | _ => fs end in
   (filter nonempty fs, existsb (fun s => negb (nonempty s)) fs).      (* names, "invalid zero-length file name" diagnosed *)
+
+(* ---- NameMatcher::matches (name.rs): the subject of -name/-iname is the last component of the path as
+   spelled - trailing slashes ignored, "." and ".." count, a path of slashes only is "/" ---- *)
+Fixpoint trim_sl_rev (r : str) : str :=
+  match r with c :: r' => if c =? SL then trim_sl_rev r' else r | [] => [] end.
+Definition trim_end_sl (s : str) : str := rev (trim_sl_rev (rev s)).
+Fixpoint last_seg (s cur : str) : str :=
+  match s with [] => cur | c :: s' => if c =? SL then last_seg s' [] else last_seg s' (cur ++ [c]) end.
+Definition name_subject (path : str) : str :=
+  match trim_end_sl path, path with
+  | [], _ :: _ => [SL]
+  | t, _ => last_seg t []
+  end.
